@@ -294,8 +294,11 @@ class Term(Node):
         return self.get_sql(DEFAULT_SQL_CONTEXT)
 
     def __hash__(self) -> int:
-        ctx = DEFAULT_SQL_CONTEXT.copy(with_alias=True)
-        return hash(self.get_sql(ctx))
+        # qualified text: "==" builds a criterion (always truthy), so terms that hash alike collapse in a set -
+        # the same expression over two different tables must not
+        # (... nor over tables of one name in different schemas, which the qualified text does not tell apart)
+        ctx = DEFAULT_SQL_CONTEXT.copy(with_alias=True, with_namespace=True)
+        return hash((self.get_sql(ctx), frozenset(self.tables_)))
 
     def get_sql(self, ctx: SqlContext) -> str:
         raise NotImplementedError()
